@@ -257,7 +257,7 @@ pub fn shard_run(tier: &str, seed: u64, replay_case: Option<usize>, shard: Shard
                     OpKind::AddVersion { parent, pay } | OpKind::Probe { parent, pay } => Req::AddVersion { parent: res(*parent), data: pay.bytes() },
                     OpKind::GetChild { parent } => Req::GetChild { parent: res(*parent) },
                     OpKind::AddSnapshot { vid, pay } => Req::AddSnapshot { vid: res(*vid), data: pay.bytes() },
-                    OpKind::GetSnapshot | OpKind::Pause => Req::GetSnapshot,
+                    OpKind::GetSnapshot | OpKind::Pause | OpKind::ShiftSnapshotTime { .. } => Req::GetSnapshot,
                     OpKind::ResendStale { k, .. } | OpKind::Resend { k } => {
                         if chains[c].is_empty() {
                             Req::GetSnapshot
